@@ -1,5 +1,16 @@
 import FalconModel.WsBuf
+import FalconModel.WsMode
 open Wb
+/-! line protocol: `log <cap> <event> …`  (a receiver of the given capacity), or
+    `cfg <major.minor> <max_receive_queue> log <event> …`  (a WebSocket constructed with that announced spec version and that
+    configured queue: `Wm.wire` decides the path; the reply starts with `hdr=<supports_accept_headers>`, and is `direct` when the
+    configuration yields no buffered receiver). -/
+def parseVer (t : String) : Option Wm.Ver :=
+  match t.splitOn "." with
+  | [a, b] => match a.toNat?, b.toNat? with
+    | some a, some b => some ⟨a, b⟩
+    | _, _ => none
+  | _ => none
 def parseEv (t : String) : Option Ev :=
   match t.splitOn ":" with
   | ["pull"] => some .pull
@@ -19,17 +30,27 @@ def parseEv (t : String) : Option Ev :=
   | ["sendDisc"] => some .sendDisc
   | ["stop"] => some .stop
   | _ => none
+def runLog (cap : Nat) (toks : List String) : String :=
+  match toks.filter (· != "") |>.mapM parseEv with
+  | some evs =>
+    match accept (4 * evs.length + 8) { cap := cap } evs 0 with
+    | .ok s =>
+      -- also report the final observables: queue length, events held, returned/delivered counts, flag, pump alive
+      s!"accepted q={s.q.length} held={(held s).length} ret={(returned evs).length} dlv={(delivered evs).length} disc={if s.disc then 1 else 0} pump={if s.pump == .exited then 0 else 1}"
+    | .error e => "REJECTED " ++ e
+  | none => "bad-op"
 def step (line : String) : String :=
   match line.trimAscii.toString.splitOn " " with
-  | "log" :: cap :: toks =>
-    match toks.filter (· != "") |>.mapM parseEv with
-    | some evs =>
-      match accept (4 * evs.length + 8) { cap := cap.toNat! } evs 0 with
-      | .ok s =>
-        -- also report the final observables: queue length, events held, returned/delivered counts, flag, pump alive
-        s!"accepted q={s.q.length} held={(held s).length} ret={(returned evs).length} dlv={(delivered evs).length} disc={if s.disc then 1 else 0} pump={if s.pump == .exited then 0 else 1}"
-      | .error e => "REJECTED " ++ e
-    | none => "bad-op"
+  | "log" :: cap :: toks => runLog cap.toNat! toks
+  | "cfg" :: ver :: mq :: "log" :: toks =>
+    match parseVer ver, mq.toNat? with
+    | some v, some q =>
+      let w := Wm.wire v q
+      s!"hdr={if w.acceptHeaders then 1 else 0} " ++
+        (match w.path with
+         | .buffered cap => runLog cap toks
+         | .direct => "direct")
+    | _, _ => "bad-op"
   | _ => "bad-op"
 partial def loop (h : IO.FS.Stream) : IO Unit := do
   let line ← h.getLine
